@@ -5,6 +5,7 @@
 package srv
 
 import (
+	"crypto/sha1"
 	"os"
 	"bufio"
 	"bytes"
@@ -210,6 +211,25 @@ func (c *Conn) WriteAndCloseInOneSegment(s string) error {
 	return c.C.Close() // close_notify goes into the cork, corkConn.Close flushes everything at once
 }
 
+// One tls.Config per (certificate, version bound) for the whole process: its session-ticket keys then stay the same from
+// one connection to the next, so that a client with a session cache can resume, as it could with a real server.
+var (
+	tlsCfgMu sync.Mutex
+	tlsCfgs  = map[string]*tls.Config{}
+)
+
+func serverTLSConfig(cert tls.Certificate, max uint16) *tls.Config {
+	key := fmt.Sprintf("%x/%d", sha1.Sum(cert.Certificate[0]), max)
+	tlsCfgMu.Lock()
+	defer tlsCfgMu.Unlock()
+	if c, ok := tlsCfgs[key]; ok {
+		return c
+	}
+	c := &tls.Config{Certificates: []tls.Certificate{cert}, MinVersion: tls.VersionTLS12, MaxVersion: max}
+	tlsCfgs[key] = c
+	return c
+}
+
 // StartTLS upgrades the connection with the given certificate. Stream state restarts.
 func (c *Conn) StartTLS(cert tls.Certificate, timeout time.Duration) error {
 	return c.StartTLSMax(cert, 0, timeout)
@@ -219,7 +239,7 @@ func (c *Conn) StartTLS(cert tls.Certificate, timeout time.Duration) error {
 func (c *Conn) StartTLSMax(cert tls.Certificate, max uint16, timeout time.Duration) error {
 	// bytes already buffered belong to the clear text phase; none are expected
 	c.cork = &corkConn{Conn: c.Raw}
-	tc := tls.Server(c.cork, &tls.Config{Certificates: []tls.Certificate{cert}, MinVersion: tls.VersionTLS12, MaxVersion: max})
+	tc := tls.Server(c.cork, serverTLSConfig(cert, max))
 	c.Raw.SetDeadline(time.Now().Add(timeout))
 	err := tc.Handshake()
 	c.Raw.SetDeadline(time.Time{})
